@@ -78,7 +78,30 @@ func (w *World) freshProof(subject string) *protocol.ProofOfWork {
 func (w *World) checkC29(res *scriptedResolver) {
 	r := w.r
 	acmeZone := "acme.example.com"
-	hosts := []string{"app.customer.org", "www.shop.example.net", "a.b.c.d.example.io"}
+	// every hostname is requested under several spellings that the server's
+	// normalisation maps to the same name (embedded white space, the Unicode form
+	// of an internationalised name); the hostname's identity is the normalised name
+	spellings := map[string][]string{}
+	var hosts []string
+	for _, forms := range [][]string{
+		{"app.customer.org", " app.customer.org", "app.cust omer.org", "app.customer.org\t"},
+		{"www.shop.example.net", "www.shop.ex ample.net"},
+		{"a.b.c.d.example.io"},
+		{"b\u00fccher.victim.net", "xn--bcher-kva.victim.net", "b\u00fccher.vic tim.net", "xn--bcher-kva.victim.net "},
+	} {
+		canon, err := acmespec.Normalize(forms[0])
+		if err != nil {
+			continue
+		}
+		var ok []string
+		for _, f := range forms {
+			if c, err := acmespec.Normalize(f); err == nil && c == canon {
+				ok = append(ok, f)
+			}
+		}
+		hosts = append(hosts, canon)
+		spellings[canon] = ok
+	}
 	type bindEv struct {
 		host  string
 		token string
@@ -125,7 +148,11 @@ func (w *World) checkC29(res *scriptedResolver) {
 			for k := 0; k < 3+r.Intn(3); k++ {
 				simrt.Sleep(time.Duration(120+r.Intn(300))*time.Millisecond, "h:pace")
 				h := hosts[r.Intn(len(hosts))]
-				req := &protocol.ValidateRequest{Hostname: h, Proof: w.proof(c, h, 0)}
+				sp := spellings[h][r.Intn(len(spellings[h]))]
+				if sp != h {
+					simrt.Probe("non-canonical-spelling")
+				}
+				req := &protocol.ValidateRequest{Hostname: sp, Proof: w.proof(c, h, 0)}
 				_, err := w.call(c, r.Intn(3), "AcmeValidate", req)
 				now := readBinding(h)
 				mu.Lock()
